@@ -20,6 +20,27 @@ RULE = (
 ASSUMPTIONS = ["equivalence of FP terms that Z3 cannot decide within the timeout is sampled over the hostile FP pool"]
 
 
+_SMALL_IDX = [8, 16, 33, 64, 255]
+
+
+def tame_indices(d):
+    """Substr/IndexOf position and length constants above 255 are replaced by small ones.
+
+    Z3's sequence rewriter (run by claripy's simplify tactics) unrolls e.g. suffixof(substr(s, K, 4), "?") over the
+    constant offset K: measured 5 s / 0.85 GB at K = 1000, > 110 s / > 8 GB at K = 2^16, and the Z3 context stays slow or
+    dead afterwards.  That is resource exhaustion inside Z3, which no oracle of C09 judges; the huge index constants
+    stay in the C03 workload (concrete folding and solving), where they cost nothing."""
+    if not isinstance(d, list) or not d or not isinstance(d[0], str):
+        return d
+    out = [d[0]] + [tame_indices(x) for x in d[1:]]
+    pos = {"ssubstr": (1, 2), "sindexof": (3,)}.get(d[0], ())
+    for i in pos:
+        x = out[i]
+        if isinstance(x, list) and x[0] == "bvv" and x[1] > 255:
+            out[i] = ["bvv", _SMALL_IDX[x[1] % len(_SMALL_IDX)], x[2]]
+    return out
+
+
 def floors(tier):
     return {"judged:claripy.simplify": 800, "judged:z3.simplify": 500, "judged:z3.abstract": 500, "judged:solver.simplify": 100, "sweep_kinds_judged": 60, "result_changed_by_simplify": 200}
 
@@ -134,7 +155,7 @@ def run_shard(spec, res):
             sym = c03.symbolize(d0, rng)
             if sym is None:
                 continue
-            d = sym[0]
+            d = tame_indices(sym[0])
             try:
                 e = strbuild.build(d)
             except Exception:  # noqa: BLE001
@@ -153,7 +174,7 @@ def run_shard(spec, res):
                     d0 = c03.rand_tree(rng, 1)
                     sym = c03.symbolize(d0, rng)
                     if sym and strref.sort_of(sym[0])[0] == "bool":
-                        cons_d.append(("str", sym[0]))
+                        cons_d.append(("str", tame_indices(sym[0])))
             elif i % 5 == 4:
                 for _ in range(rng.choice([1, 2])):
                     d0 = c02.sym_case(rng)
@@ -170,9 +191,15 @@ def run_shard(spec, res):
             s = cls()
             is_bv = all(f == "bv" for f, _ in cons_d)
             try:
+                # building the store is not what C09 judges: a frontend that cannot take these constraints
+                # (add()/satisfiable() raising before simplify() was ever called) is counted and skipped
                 s.add(cons)
                 sat_before = s.satisfiable() if is_bv and rng.random() < 0.5 else None
                 before = list(s.constraints)
+            except Exception as ex:  # noqa: BLE001
+                res.count("not_judged:store_setup_raised:" + cls.__name__ + ":" + type(ex).__name__)
+                continue
+            try:
                 s.simplify()
                 after = list(s.constraints)
                 if rng.random() < 0.3:
